@@ -49,7 +49,16 @@ def uniquetrees(paths):
     if not paths:
         return []
 
-    paths = [(i, [i.root.value] + i.split()) for i in paths]
+    def key(path):
+        bits = path.split()
+        if bits and bits[-1] == '':
+            # A root directory ('/' or 'C:/') is the parent of everything on
+            # its drive.
+            bits = bits[:-1]
+        # `Root` and `InstallRoot` values overlap, so include the kind of root.
+        return [type(path.root).__name__, path.root.value] + bits
+
+    paths = [(i, key(i)) for i in paths]
     paths.sort(key=lambda i: i[1])
     piter = iter(paths)
 
